@@ -94,11 +94,19 @@ Proof.
   tauto.
 Qed.
 
+Lemma check_back_ends_iff M : check_back_ends M = true <-> real_back_ends M.
+Proof.
+  unfold check_back_ends, real_back_ends. rewrite forallb_forall.
+  split; intros H b Hb; specialize (H b Hb).
+  - apply existsb_exists in H. destruct H as (x & Hx & E). apply String.eqb_eq in E. subst. assumption.
+  - apply existsb_exists. exists b. split; [assumption|apply String.eqb_refl].
+Qed.
+
 Lemma check_layout_iff_realisable_lem T M :
   t_req T = prelude_req -> units_ok M -> (check_layout T M = true <-> realisable T M).
 Proof.
   intros HT UM. unfold check_layout, realisable.
-  rewrite !andb_true_iff, check_all_attrs_iff, check_names_iff.
+  rewrite !andb_true_iff, check_all_attrs_iff, check_names_iff, check_back_ends_iff.
   rewrite (forallb_iff check_enum real_enum) by (intros e _; apply check_enum_iff).
   rewrite (forallb_iff _ (fun s => real_struct_size s /\ (forall f, In f (s_fields s) -> real_field T M s f)
                                    /\ (forall p, In p (s_params s) -> real_param M p))).
